@@ -181,7 +181,7 @@ pub fn render_field(name: &str, val: &str, rng: &mut Rng) -> String {
     // the common "Field:\n value,\n value" layout: nothing after the colon, the value starts on the next line
     let val_owned;
     let moved = format!("\n{}", val.replace(", ", ",\n"));
-    let ok = !val.is_empty() && !val.starts_with('\n') && (val.contains('\n') || val.contains(',')) && !moved[1..].split('\n').any(|l| l.starts_with('#') || l.trim().is_empty());
+    let ok = !val.is_empty() && !val.starts_with('\n') && (val.contains('\n') || val.contains(',')) && !moved[1..].split('\n').any(|l| l.trim_start().starts_with('#') || l.trim().is_empty());
     let val = if ok && rng.chance(1, 6) {
         val_owned = moved;
         val_owned.as_str()
